@@ -81,7 +81,7 @@ def lazy_slots(M: Model, files: set[str] | None = None) -> Iterator[LazySlot]:
                 continue
             slot = unparse(s)
             stores = []
-            for st in ast.walk(i):
+            for st in (x for b in i.body for x in ast.walk(b)):
                 if isinstance(st, ast.stmt):
                     for t in _targets(st):
                         if isinstance(t, ast.Attribute) and _base(t) == base and isinstance(t.value, ast.Name):
